@@ -982,8 +982,13 @@ func (i *Interpreter) ApplyTypeDefaults(obj map[string]interface{}, typeDef Type
 
 // executeFunction executes a user-defined function
 func (i *Interpreter) executeFunction(fn Function, args []Expr, env *Environment) (interface{}, error) {
-	// Create a new environment for the function
-	fnEnv := NewChildEnvironment(env)
+	// Create a new environment for the function. Its parent is the
+	// environment functions are defined in, not the caller's: as a child of
+	// the caller's scope, `$ k = n` in the callee assigned the k of whoever
+	// called it (recursion overwrote its own locals: fact(4) returned 1) and
+	// the callee could read the calling route's variables. The arguments are
+	// still evaluated in the caller's env.
+	fnEnv := NewChildEnvironment(i.globalEnv)
 
 	// Count required parameters (those marked required without defaults)
 	requiredCount := 0
@@ -1113,7 +1118,7 @@ func (i *Interpreter) executeGenericFunction(fn Function, typeArgs []Type, args 
 	}()
 
 	// Create a new environment for the function
-	fnEnv := NewChildEnvironment(env)
+	fnEnv := NewChildEnvironment(i.globalEnv)
 
 	// Validate argument count
 	if len(argValues) != len(instantiatedFn.Params) {
@@ -1494,7 +1499,7 @@ func (i *Interpreter) callWithPipedArg(fn interface{}, pipedVal interface{}, ext
 // executeFunctionWithValues executes a user-defined function with pre-evaluated argument values
 func (i *Interpreter) executeFunctionWithValues(fn Function, argVals []interface{}, env *Environment) (interface{}, error) {
 	// Create a new environment for the function
-	fnEnv := NewChildEnvironment(env)
+	fnEnv := NewChildEnvironment(i.globalEnv)
 
 	// Count required parameters (those marked required without defaults)
 	requiredCount := 0
@@ -1696,7 +1701,7 @@ func (i *Interpreter) evaluateResultMethod(result *ResultValue, method string, a
 func (i *Interpreter) callFnArg(fn interface{}, arg interface{}, env *Environment) (interface{}, error) {
 	switch f := fn.(type) {
 	case Function:
-		fnEnv := NewChildEnvironment(env)
+		fnEnv := NewChildEnvironment(i.globalEnv)
 		if len(f.Params) > 0 {
 			fnEnv.Define(f.Params[0].Name, arg)
 		}
